@@ -280,6 +280,34 @@ def run(ctx):
         for f in res.get("fail", []):
             report(ctx, seen, f.get("what"), dict(kind="silent", cfg=job["cfg"], phases=job["phases"], seed=job["seed"],
                                                   failures=res.get("fail"), steps=res.get("steps")))
+    # ---------------------------------------------------------------- exit signals against the real process (python -m radicale)
+    sigjobs = [dict(kind="signals", inflight=True, signals=["TERM", second], gap=0.2) for second in ("TERM", "INT", "HUP")]
+    sigjobs += [dict(kind="signals", inflight=True, signals=["INT", "INT"], gap=0),
+                dict(kind="signals", inflight=False, signals=["TERM"], gap=0),
+                dict(kind="signals", inflight=False, signals=["TERM", "HUP"], gap=0)]
+    if not ctx.quick:
+        names = ("TERM", "INT", "HUP", "QUIT")
+        sigjobs += [dict(kind="signals", inflight=True, signals=[x, y], gap=g) for x in names for y in names
+                    for g in (0, 0.2) if not (x == "TERM" and g == 0.2 and y != "QUIT")]
+        sigjobs += [dict(kind="signals", inflight=True, signals=["TERM", "HUP", "INT", "QUIT"], gap=0.05),
+                    dict(kind="signals", inflight=True, signals=["HUP"], gap=0),
+                    dict(kind="signals", inflight=False, signals=["INT", "INT"], gap=0),
+                    dict(kind="signals", inflight=False, signals=["QUIT"], gap=0)]
+    for job, res in zip(sigjobs, x_c20.run_jobs(sigjobs, ctx.scratch(), procs=min(8, len(sigjobs)))):
+        if res.get("driver_error"):
+            ctx.obligation("driver-ran:signals", False, res.get("inconclusive", ""))
+            continue
+        if res.get("inconclusive"):
+            ctx.notes.append("inconclusive signal scenario: %s" % res["inconclusive"][:200])
+            continue
+        ctx.case(("signals", job["inflight"], tuple(job["signals"]), job["gap"]), nontrivial=len(job["signals"]) > 1 or job["inflight"])
+        ctx.count("signals:%s%s" % ("+".join(job["signals"]), ":inflight" if job["inflight"] else ""))
+        if len(job["signals"]) > 1 and job["inflight"] and not any(x.get("mode") == "signals" for x in ctx.samples):
+            ctx.samples = ctx.samples[:5] + [dict(mode="signals", job=job, steps=res.get("steps"))]
+        for f in res.get("fail", []):
+            report(ctx, seen, f.get("what"), dict(kind="signals", inflight=job["inflight"], signals=job["signals"], gap=job["gap"],
+                                                  failures=res.get("fail"), steps=res.get("steps")),
+                   key="signals:" + f.get("what", "")[:40])
     # ---------------------------------------------------------------- regression of the fixed negative-length finding
     # over the socket, real do_PUT: a negative or oversized declared length must not make the handler read the body
     nres = x_c20.run_jobs([dict(kind="neglen", declared="-1", body=300000, max_len=1000),
@@ -307,7 +335,7 @@ def run(ctx):
 
 def replay(ctx, path):
     rp = json.load(open(path))["replay"]
-    if rp.get("kind") in ("realgate", "silent", "neglen"):
+    if rp.get("kind") in ("realgate", "silent", "neglen", "signals"):
         job = dict(rp)
         job.pop("result", None)
         job.pop("witness", None)
